@@ -207,10 +207,11 @@ theorem sectionLines_good (tbl : List (String × Arity)) (m : Mol) (hc : CharFac
       (fun i hi => ⟨hints i (hmem i hi), (hall i (hmem i hi)).2⟩)
       (linesOf_good m.post (fun p hp => (hc.post p hp).2) _) l hl
 
-theorem fileLines_good (tbl : List (String × Arity)) (m : Mol) (hw : WfFacts tbl m) (hc : CharFacts m) :
-    ∀ l ∈ fileLines m, lineGood l = true := by
+theorem fileLinesOrd_good (tbl : List (String × Arity)) (m : Mol) (hw : WfFacts tbl m) (hc : CharFacts m)
+    (names : List String) (hsub : ∀ n ∈ names, n ∈ remainingNames m) :
+    ∀ l ∈ fileLinesOrd m names, lineGood l = true := by
   intro l hl
-  simp only [fileLines, List.mem_append] at hl
+  simp only [fileLinesOrd, List.mem_append] at hl
   rcases hl with ((hl | hl) | hl) | hl
   · -- prelude
     simp only [prelude, List.mem_append, List.mem_map, List.mem_flatMap, List.mem_cons,
@@ -243,11 +244,12 @@ theorem fileLines_good (tbl : List (String × Arity)) (m : Mol) (hw : WfFacts tb
     obtain ⟨sl, ⟨s, hs, rfl⟩, hl⟩ := hl
     exact sectionLines_good tbl m hc _ _ s (mem_sortInteractions m s hs).1 (hw.sections s hs) l hl
   · -- left-over sections
-    simp only [remainingPart, List.mem_flatMap, List.mem_append, List.mem_cons, List.not_mem_nil,
+    simp only [remainingPartOf, List.mem_flatMap, List.mem_append, List.mem_cons, List.not_mem_nil,
       or_false] at hl
     obtain ⟨n, hn, hl⟩ := hl
     rcases hl with ((rfl | hl) | hl) | rfl
-    · simp only [remainingNames, List.mem_filter] at hn
+    · have hn := hsub n hn
+      simp only [remainingNames, List.mem_filter] at hn
       have hn' := hn.1
       rw [List.mem_eraseDups] at hn'
       simp only [List.mem_append, List.mem_map] at hn'
@@ -257,5 +259,9 @@ theorem fileLines_good (tbl : List (String × Arity)) (m : Mol) (hw : WfFacts tb
     · exact linesOf_good m.pre (fun p hp => (hc.pre p hp).2) _ l hl
     · exact linesOf_good m.post (fun p hp => (hc.post p hp).2) _ l hl
     · rfl
+
+theorem fileLines_good (tbl : List (String × Arity)) (m : Mol) (hw : WfFacts tbl m) (hc : CharFacts m) :
+    ∀ l ∈ fileLines m, lineGood l = true :=
+  fileLinesOrd_good tbl m hw hc (remainingNames m) (fun _ h => h)
 
 end C02
